@@ -29,8 +29,9 @@ MkJsonCol(i) == [A |-> JDocs(RandomElement(1..3), 2), B |-> JDocs(RandomElement(
 RECURSIVE Cols(_, _)
 Cols(n, kind) == IF n = 0 THEN <<>> ELSE Append(Cols(n - 1, kind), IF kind = "csv" THEN MkCsvCol(n) ELSE MkJsonCol(n))
 MkCase(i, kind) == [id |-> i, kind |-> kind, cols |-> Cols(RandomElement(1..3), kind), n |-> <<3, 7, 100, 102, 104, 104, 165>>[RandomElement(1..7)]]
-RECURSIVE Cases(_, _)
-Cases(n, kind) == IF n = 0 THEN <<>> ELSE Append(Cases(n - 1, kind), MkCase(n, kind))
+RECURSIVE CasesFrom(_, _, _)
+CasesFrom(lo, hi, kind) == IF lo > hi THEN <<>> ELSE IF lo = hi THEN <<MkCase(lo, kind)>> ELSE LET mid == (lo + hi) \div 2 IN CasesFrom(lo, mid, kind) \o CasesFrom(mid + 1, hi, kind)
+Cases(n, kind) == CasesFrom(1, n, kind)
 
 ASSUME SchemaLaws
 ASSUME ndJsonSerialize("c24_cases.ndjson", Cases(N, "csv") \o Cases(N, "json"))
